@@ -63,12 +63,13 @@ Lemma mz_oracle_accepts_model t c s m ts method :
   mz_wf t -> (forall r, mz_lookup method = Some r -> ~ mz_finding_anon_cert s r) ->
   mz_oracle_msg t c s m method (mz_run t c s m ts method) = 0.
 Proof.
-  intros W NF. unfold mz_run, mz_handle.
+  intros W NF. unfold mz_run, mz_handle, mz_handle_core.
   destruct (mz_is_some (mz_ep s)) eqn:EP; cbn [andb].
   - destruct (mz_ts_is ts MzTsOld); [reflexivity|].
-    unfold mz_oracle_msg; cbn [mz_dropped mz_rlp mz_applied andb].
+    unfold mz_oracle_msg, mz_oracle_core; cbn [mz_dropped mz_rlp mz_applied andb].
     rewrite EP. cbn [negb]. rewrite andb_false_r.
-    destruct (mz_lookup method) as [r|] eqn:L; [|reflexivity].
+    destruct (mz_lookup method) as [r|] eqn:L; [|reflexivity]. cbn [option_map mz_row_core].
+    fold (mz_authorise t c s m r).
     destruct (mz_authorise t c s m r && _) eqn:AP; [|reflexivity]. cbn [negb].
     apply andb_prop in AP as [A EF].
     destruct (mz_find_row_in _ _ _ L) as [I Mn].
@@ -82,8 +83,9 @@ Proof.
       * rewrite Mn, CL in CL'. inversion CL'; subst k'.
         rewrite (mz_entitled_b_complete t c s m k W EN). reflexivity.
     + exfalso. destruct (mz_table_row r I) as (k & CL' & _). rewrite Mn, CL in CL'. discriminate.
-  - unfold mz_oracle_msg; cbn [mz_dropped mz_rlp mz_applied andb].
-    destruct (mz_lookup method) as [r|] eqn:L; [|reflexivity].
+  - unfold mz_oracle_msg, mz_oracle_core; cbn [mz_dropped mz_rlp mz_applied andb].
+    destruct (mz_lookup method) as [r|] eqn:L; [|reflexivity]. cbn [option_map mz_row_core].
+    fold (mz_authorise t c s m r).
     destruct (mz_authorise t c s m r && _) eqn:AP; [|reflexivity]. cbn [negb].
     apply andb_prop in AP as [A EF].
     destruct (mz_find_row_in _ _ _ L) as [I Mn].
